@@ -370,10 +370,72 @@ static void run_line(char *line)
 	vs_kill_all();
 }
 
+/* cfail <nworkers> <k> <seed>: the k-th pthread_create inside thread_pool_create fails (EAGAIN); the function must
+   shut the already created workers down, join them and return NULL — under a seeded random schedule */
+static int cf_n, cf_k, cf_null;
+
+static void *cfail_thread(void *arg)
+{
+	thread_pool_t *p;
+	(void)arg;
+	vs_fail_next_create(cf_k);
+	p = thread_pool_create((size_t)cf_n, cb);
+	cf_null = p == NULL;
+	if (p != NULL)
+		p->destroy(p);
+	return NULL;
+}
+
+static void run_cfail(char *line)
+{
+	char *save = NULL;
+	char *cmd = strtok_r(line, " \n", &save), *a = strtok_r(NULL, " \n", &save), *b = strtok_r(NULL, " \n", &save),
+	     *c = strtok_r(NULL, " \n", &save);
+	unsigned long long x;
+	int dl = 0, alive = 0, i, mtx = 0;
+	(void)cmd;
+	if (!a || !b || !c || !is_num(a) || !is_num(b) || !is_num(c) || atoi(a) < 1 || atoi(a) > MAXW) {
+		puts("bad-op");
+		return;
+	}
+	cf_n = atoi(a);
+	cf_k = atoi(b);
+	cf_null = -1;
+	g_n = cf_n;
+	x = strtoull(c, NULL, 10) * 2862933555777941757ULL + 3037000493ULL;
+	vs_reset();
+	vs_spawn(cfail_thread, NULL);
+	for (;;) {
+		int en[64], n = 0, nt = vs_nthreads(), live = 0;
+		for (i = 0; i < nt && i < 64; ++i) {
+			if (vs_kind(i) != VS_EXITED)
+				live = 1;
+			if (vs_enabled(i))
+				en[n++] = i;
+		}
+		if (vs_mutexes_held() != 0)
+			mtx = 1;
+		if (n == 0) {
+			dl = live;
+			break;
+		}
+		x = x * 6364136223846793005ULL + 1442695040888963407ULL;
+		vs_step(en[(x >> 33) % (unsigned)n], 0);
+	}
+	for (i = 0; i < vs_nthreads(); ++i)
+		alive += vs_kind(i) != VS_EXITED;
+	printf("null=%d dl=%d alive=%d threads=%d mtx=%d\n", cf_null, dl, alive, vs_nthreads(), mtx);
+	vs_kill_all();
+}
+
 int main(void)
 {
 	static char line[1 << 16];
-	while (fgets(line, sizeof(line), stdin))
-		run_line(line);
+	while (fgets(line, sizeof(line), stdin)) {
+		if (strncmp(line, "cfail ", 6) == 0)
+			run_cfail(line);
+		else
+			run_line(line);
+	}
 	return 0;
 }
